@@ -15,7 +15,7 @@ import (
 func init() {
 	Registry["C16"] = C16
 	Metas["C16"] = Meta{
-		Explanation: "Decides the structural clauses of C16: (R1) the lookup entry points (Map/MapOf Load, Size and the counter sum, cache Count) have an empty transitive effect set w.r.t. blocking primitives, locks, reads of the resize flag, writes to shared memory, yielding and calls of user functions other than the hasher; (R2) every loop in them is of an accepted non-waiting kind (bounded counted scan, chain walk exiting on nil, SWAR scan, snapshot retry whose back edge needs two atomic loads of one slot to differ, i.e. a step by another goroutine); (R3) in the load-if-exists specialisation of the compute core the lock-free lookup precedes every lock acquire and its hit edge returns without locking; (R4) in the cache get path every blocking map call is taken only on the expired outcome of an expiry test on the loaded item; (R5) the bucket copy of a resize writes nothing reachable from its source bucket except the lock word. NOT decided: step counts, progress of the snapshot retry against a never-pausing writer (lock-free, not wait-free), cost of user hashers.",
+		Explanation: "Decides the structural clauses of C16: (R1) the lookup entry points (Map/MapOf Load, Size and the counter sum, cache Count) have an empty transitive effect set w.r.t. blocking primitives, locks, reads of the resize flag, writes to shared memory, yielding and calls of user functions other than the hasher; (R2) every loop in them is of an accepted non-waiting kind (bounded counted scan, chain walk exiting on nil, SWAR scan, snapshot retry whose back edge needs two atomic loads of one slot to differ, i.e. a step by another goroutine); (R3) in the load-if-exists specialisation of the compute core the lock-free lookup precedes every lock acquire and every call of a function with a blocking effect, its hit edge returns without locking, and the wrappers selecting that mode block nowhere but inside the core; (R4) on every evaluated abstract path of Get / GetWithExpiration / GetWithTTL a map operation other than the lock-free Load follows only a Load of the same call that observed an expired entry; (R5) the bucket copy of a resize writes nothing reachable from its source bucket except the lock word. NOT decided: step counts, progress of the snapshot retry against a never-pausing writer (lock-free, not wait-free), cost of user hashers.",
 		Rule:        "one obligation per (rule, entry function | loop | call site); non-trivial = verdict depended on an effect set, a loop classification or a dominance query",
 		Assumptions: []string{"effects of standard-library callees come from a frozen table (an unknown callee fails)", "hash functions are non-blocking leaves"},
 	}
